@@ -2,3 +2,4 @@ import Mappy.Base
 import Mappy.Driver
 import Mappy.Props.C17
 import Mappy.Props.C18
+import Mappy.Props.C16
